@@ -1,101 +1,587 @@
-import NixModel.Basic
+import NixModel.Store.Step
 
 /-!
-# Ticks of a linked RangeDimension (`nixio/dimensions.py`)
+# Dimension descriptors and dimension links (`nixio/dimensions.py`, `nixio/data_array.py`)
 
-`RangeDimension.link_data_array`, `RangeDimension.is_alias`, `RangeDimension.ticks` and `DimensionLink.values`
-for a DataArray provider: the ticks of a linked dimension are ONE VECTOR of the provider's data, named by an
-index that holds one coordinate per data dimension of the provider and exactly one `-1` (the axis the vector runs
-along).  Data are row-major (`data[tuple(dimindex)]` on the NumPy array `get_data("data")` returns).
+A `DataArray` owns a group `dimensions` whose children `"1"`, `"2"`, … are the dimension
+descriptors. A `RangeDimension` keeps its ticks in a dataset `ticks`, a `SetDimension` its labels in
+a dataset `labels`; either may instead carry a `DimensionLink` — a child group `link` with the
+attributes `entity_id`, `data_object_type`, `index` and ONE hard link, named by the target's id, to
+the linked `DataArray` (`DimensionLink.create_new`, dimensions.py:82-94).  The linked array is
+therefore reached through the same HDF5 object graph as every other link (`Store/Graph.lean`): the
+path `…/dimensions/1/link/<0>` resolves to the very node the block's `data_arrays` group links.
+
+What the graph model leaves out (dataset *content*) is added here as side tables keyed by node:
+the stored values of an array (`data`, row-major, exact rationals for the doubles stored),
+of `ticks`, of `labels`, and the `index` attribute of a link group.
+
+Every function mirrors the Python method named in its comment, in the code's own order of checks
+and writes (the code as of the `fix:` commit "a refused RangeDimension.link_data_array /
+link_data_frame deleted the dimension's ticks": validation first, the ticks go once the link exists).
+Links to a column of a `DataFrame` (`link_data_frame`) are modelled for frames of float columns (content
+of the compound dataset and the `units` attribute are side tables like the array data; a frame may have no
+`units` attribute at all, and the unit of a dimension linked to one of its columns follows the `fix:` commit
+"unit of a dimension linked to a frame column": it reads as `DataFrame.units` reads that column — None without
+units or for an empty entry — and assigning it works on a frame without units and with None).  Not modelled:
+the pre-1.5 "alias range dimension" layout (`is_alias and not has_link`, unreachable through the
+current API), `delete_dimensions`, polynomial calibration (the link reads the *stored* values:
+`DimensionLink.linked_data` is `h5group.get_data("data")`).
 -/
-
 namespace Nix.DimLink
+open Nix.Store Nix.Store.Graph
 
-/-- `RangeDimension._check_index` on integer entries: exactly one entry is `-1` and it is the only negative one -/
-def indexOk (index : List Int) : Bool :=
-  index.count (-1) == 1 && (index.filter (fun i => decide (i < 0))).length == 1
+/-- stored content of an array: shape and row-major values -/
+structure NdData where
+  shape : List Nat
+  vals : List Rat
+  deriving DecidableEq, Repr, Inhabited
 
-/-- `Dimension.link_data_array`: the rank test comes first (IncompatibleDimensions), then the index test
-(ValueError); nothing about the LENGTH of the selected vector is tested -/
-def linkDataArray (shape : List Nat) (index : List Int) : Except Err Unit :=
-  if shape.length != index.length then .error .incompatibleDimensions
-  else if !indexOk index then .error .valueError
-  else .ok ()
+/-- association lists keyed by node -/
+def look {α : Type} (m : List (Nat × α)) (k : Nat) : Option α := (m.find? (fun e => e.1 == k)).map (·.2)
 
-/-- what `RangeDimension.is_alias` reads from the dimension's HDF5 group -/
-structure RangeStore where
-  /-- `self._h5group.has_data("ticks")` -/
-  hasTicks : Bool
-  /-- `len(self._h5group)` -/
-  members : Nat
-  /-- `has_link`, and whether `dimension_link._data_object_type == "DataArray"` -/
-  link : Option Bool
-  deriving DecidableEq, Repr
+def put {α : Type} (m : List (Nat × α)) (k : Nat) (v : α) : List (Nat × α) :=
+  m.filter (fun e => e.1 != k) ++ [(k, v)]
 
-/-- `RangeDimension.is_alias`, branch for branch -/
-def isAlias (s : RangeStore) : Bool :=
-  if s.hasTicks then false
-  else if s.link.isNone && decide (s.members > 0) then true
-  else if s.link == some true then true
-  else false
+/-- stored content of a data frame of float columns: the field names of the compound type, the
+`units` attribute AS STORED (`none`: the frame has no such attribute — it was made without units and none
+was ever assigned; otherwise one text per column, the empty text standing for "no unit") and the rows -/
+structure FrameData where
+  cols : List String
+  units : Option (List String)
+  rows : List (List Rat)
+  deriving DecidableEq, Repr, Inhabited
 
-/-- the group after `link_data_array(provider, index)` was accepted: the link group is a member, ticks are deleted -/
-def afterLinkArray (s : RangeStore) : RangeStore :=
-  { hasTicks := false, members := (if s.hasTicks then s.members - 1 else s.members) + (if s.link.isNone then 1 else 0),
-    link := some true }
+/-- how a unit (or None) is kept in the `units` attribute: None as the empty text -/
+def unitText : Option String → String
+  | some x => x
+  | none => ""
 
-/-- product of the extents: entries of one block -/
-def blockSize (shape : List Nat) : Nat := shape.foldr (· * ·) 1
+/-- what `DataFrame.units = units` writes (`units_arr[idx] = ""` for None; the texts handed in are fixed
+points of the unit sanitizer) -/
+def storeUnits (units : List (Option String)) : List String := units.map unitText
 
-/-- the `k`-th block of `size` entries -/
-def block (data : List Rat) (size k : Nat) : List Rat := (data.drop (k * size)).take size
+/-- how one stored entry of `units` reads: the empty text is "no unit" (`DataFrame.units`, and
+`DimensionLink.unit` since the `fix:` commit "unit of a dimension linked to a frame column") -/
+def readUnit (u : String) : Option String := if u == "" then none else some u
 
-/-- `List.mapM` in `Except`, written out -/
-def mapE {α β : Type} (f : α → Except Err β) : List α → Except Err (List β)
-  | [] => .ok []
-  | a :: rest => match f a with
-    | .error e => .error e
-    | .ok b => match mapE f rest with
-      | .error e => .error e
-      | .ok bs => .ok (b :: bs)
+/-- `DataFrame.units`: None without the attribute, else the entries with "" read as None -/
+def frameUnits (fd : FrameData) : Option (List (Option String)) := fd.units.map fun us => us.map readUnit
 
-/-- every coordinate fixed: the one entry NumPy returns (IndexError for a coordinate outside the extent) -/
-def pick : List Nat → List Int → List Rat → Except Err Rat
-  | [], [], [x] => .ok x
-  | n :: shape, i :: index, data =>
-    if i < 0 ∨ n ≤ i.toNat then .error .indexError
-    else pick shape index (block data (blockSize shape) i.toNat)
-  | _, _, _ => .error .indexError
+/-- `DimensionLink.unit` (getter) of a link to column `c` of a frame: `None` for a frame without units,
+else the column's entry, "" read as None -/
+def linkFrameUnit (fd : FrameData) (c : Nat) : Except Err (Option String) :=
+  match fd.units with
+  | none => .ok none
+  | some us =>
+    match us[c]? with
+    | some u => .ok (readUnit u)
+    | none => .error .indexError
 
-/-- `DimensionLink.values` for a DataArray: `data[tuple(dimindex)]` with the `-1` replaced by `slice(None)` -/
-def values : List Nat → List Int → List Rat → Except Err (List Rat)
-  | n :: shape, i :: index, data =>
-    if i == -1 then mapE (fun k => pick shape index (block data (blockSize shape) k)) (List.range n)
-    else if i < 0 ∨ n ≤ i.toNat then .error .indexError
-    else values shape index (block data (blockSize shape) i.toNat)
-  | _, _, _ => .error .indexError
+/-- `DimensionLink.unit = v` on a link to column `c` of a frame: a frame without units gets one empty entry
+per column first, then the column's entry is replaced (`None` is written as the empty text) -/
+def setFrameUnit (fd : FrameData) (c : Nat) (v : Option String) : Except Err FrameData :=
+  let us := match fd.units with
+    | some us => us
+    | none => List.replicate fd.cols.length ""
+  if c < us.length then .ok { fd with units := some (us.set c (unitText v)) }
+  else .error .indexError
 
-/-- the provider's extent along the axis the index marks with `-1` -/
-def axisLen : List Nat → List Int → Option Nat
-  | n :: shape, i :: index => if i == -1 then some n else axisLen shape index
+structure DState where
+  g : Graph := {}
+  data : List (Nat × NdData) := []          -- content of `data` datasets of arrays
+  ticks : List (Nat × List Rat) := []       -- content of `ticks` datasets
+  labels : List (Nat × List String) := []   -- content of `labels` datasets
+  index : List (Nat × List Int) := []       -- `index` attribute of `link` groups (a frame link: `[column]`)
+  frames : List (Nat × FrameData) := []     -- content (+ `units`) of `data` datasets of frames
+  deriving Repr, Inhabited
+
+/-! ## NumPy basic indexing with integers and one full slice -/
+
+def prod : List Nat → Nat
+  | [] => 1
+  | n :: ns => n * prod ns
+
+/-- row-major offset of a multi-index (`none` when an index is out of range or the ranks differ) -/
+def flatIndex : List Nat → List Nat → Option Nat
+  | [], [] => some 0
+  | n :: ns, i :: is =>
+    if i < n then (flatIndex ns is).map fun r => i * prod ns + r else none
   | _, _ => none
 
-/-- `RangeDimension.ticks` of a dimension linked to a DataArray (`has_link`: `dimension_link.values`) -/
-def linkedTicks (shape : List Nat) (index : List Int) (data : List Rat) : Except Err (List Rat) :=
-  values shape index data
+/-- position of the (first) `-1` in an index vector -/
+def slicePos (iv : List Int) : Option Nat :=
+  let p := iv.findIdx (· == -1)
+  if p < iv.length then some p else none
 
-/-- every coordinate is fixed and lies inside the extent -/
-def fixedOk : List Nat → List Int → Bool
-  | [], [] => true
-  | n :: shape, i :: index => decide (0 ≤ i) && decide (i.toNat < n) && fixedOk shape index
-  | _, _ => false
+/-- NumPy's reading of an integer index on an axis of length `n`: negative counts from the end -/
+def normIdx (n : Nat) (i : Int) : Option Nat :=
+  if 0 ≤ i then (if i.toNat < n then some i.toNat else none)
+  else (if (-i).toNat ≤ n then some (n - (-i).toNat) else none)
 
-/-- one coordinate per extent, exactly one `-1`, every other coordinate inside its extent -/
-def coordsOk : List Nat → List Int → Bool
-  | n :: shape, i :: index =>
-    if i == -1 then fixedOk shape index
-    else if 0 ≤ i ∧ i.toNat < n then coordsOk shape index
-    else false
-  | _, _ => false
+/-- the fixed (integer) entries of the index vector, read as NumPy reads them; `0` at the slice
+position `p` -/
+def fixedIdx (shape : List Nat) (iv : List Int) (p : Nat) : Option (List Nat) :=
+  (List.range iv.length).mapM fun q =>
+    if q == p then some 0
+    else match shape[q]?, iv[q]? with
+      | some n, some i => normIdx n i
+      | _, _ => none
+
+/-- `data[tuple(dimindex)]` with the `-1` replaced by `slice(None)` (`DimensionLink.values`):
+the vector along axis `p` through the fixed indices; IndexError when a fixed index is out of
+range (or the ranks differ — excluded when the link is made) -/
+def selectVector (d : NdData) (iv : List Int) : Except Err (List Rat) :=
+  match slicePos iv with
+  | none => .error .valueError              -- `dimindex.index(-1)` raises ValueError
+  | some p =>
+    if iv.length != d.shape.length then .error .indexError
+    else
+      match d.shape[p]?, fixedIdx d.shape iv p with
+      | some n, some fx =>
+        (List.range n).mapM fun j =>
+          match (flatIndex d.shape (fx.set p j)).bind fun off => d.vals[off]? with
+          | some v => .ok v
+          | none => .error .indexError
+      | _, _ => .error .indexError
+
+/-! ## addressing -/
+
+def kDimRange := "dim_range"
+def kDimSet := "dim_set"
+def kDimSample := "dim_sample"
+
+/-- the array node at a path (it must be a DataArray) -/
+def arrayAt (s : DState) (p : Path) : Except Err Nat :=
+  match resolve s.g rootLoc p with
+  | none => .error .keyError
+  | some l => if kindOf s.g l.key == "data_array" then .ok l.key else .error .attributeError
+
+/-- `len(array.dimensions)` -/
+def dimCount (g : Graph) (a : Nat) : Nat :=
+  match g.child? a "dimensions" with
+  | some d => (g.links d).length
+  | none => 0
+
+/-- `array.dimensions[i-1]`: the descriptor group named `str(i)` -/
+def dimNode (g : Graph) (a : Nat) (i : Nat) : Option Nat :=
+  (g.child? a "dimensions").bind fun d => g.child? d (toString i)
+
+def dimAt (s : DState) (p : Path) (i : Nat) : Except Err Nat :=
+  match arrayAt s p with
+  | .error e => .error e
+  | .ok a => match dimNode s.g a i with
+    | some d => .ok d
+    | none => .error .indexError
+
+/-- `Dimension.has_link` -/
+def hasLink (g : Graph) (d : Nat) : Bool := g.hasChild d "link"
+
+/-- `DimensionLink._linked_group()` = `get_by_pos(0)` of the link group -/
+def linkTarget (g : Graph) (d : Nat) : Option Nat :=
+  (g.child? d "link").bind fun ln => ((g.links ln)[0]?).map (·.2)
+
+/-- `DimensionLink._data_object_type` of the descriptor's link group ("" when there is none) -/
+def linkType (g : Graph) (d : Nat) : String :=
+  ((g.child? d "link").bind fun ln => g.getAttr ln "data_object_type").getD ""
+
+/-- stored content of the array node `a` -/
+def dataOf (s : DState) (a : Nat) : Option NdData := (s.g.child? a "data").bind fun ds => look s.data ds
+
+/-- stored content of the frame node `f` -/
+def frameOf (s : DState) (f : Nat) : Option FrameData := (s.g.child? f "data").bind fun ds => look s.frames ds
+
+/-- the column a frame link points at (`DimensionLink.index` of a DataFrame link) -/
+def linkColumn (s : DState) (d : Nat) : Option Nat :=
+  (s.g.child? d "link").bind fun ln => (look s.index ln).bind fun iv =>
+    match iv with
+    | [c] => if 0 ≤ c then some c.toNat else none
+    | _ => none
+
+/-- the frame node at a path (it must be a DataFrame) -/
+def frameAt (s : DState) (p : Path) : Except Err Nat :=
+  match resolve s.g rootLoc p with
+  | none => .error .keyError
+  | some l => if kindOf s.g l.key == "data_frame" then .ok l.key else .error .attributeError
+
+/-- column `c` of the rows (`tuple(row[index] for row in data)`) -/
+def column (fd : FrameData) (c : Nat) : Except Err (List Rat) :=
+  fd.rows.mapM fun r => match r[c]? with | some v => .ok v | none => .error .indexError
+
+/-! ## arrays -/
+
+/-- `Block.create_data_array(name, type, data=<array of that shape>)` -/
+def createArray (s : DState) (owner : Path) (name type : String) (shape : List Nat) (vals : List Rat) :
+    Except Err DState :=
+  if vals.length != prod shape then .error .valueError     -- (the harness cannot even build such an array)
+  else
+    match createIn s.g owner "data_array" name type none with
+    | .error e => .error e
+    | .ok g' =>
+      match (resolve g' rootLoc (owner ++ [.name "data_arrays", .name name])).bind
+              fun l => g'.child? l.key "data" with
+      | some ds => .ok { s with g := g', data := put s.data ds { shape := shape, vals := vals } }
+      | none => .error .keyError
+
+/-- `array.write_direct(<values reshaped to the array's own shape>)` through any path -/
+def writeData (s : DState) (p : Path) (vals : List Rat) : Except Err DState :=
+  match arrayAt s p with
+  | .error e => .error e
+  | .ok a =>
+    match s.g.child? a "data" with
+    | none => .error .keyError
+    | some ds =>
+      match look s.data ds with
+      | none => .error .keyError
+      | some d =>
+        if vals.length != prod d.shape then .error .valueError
+        else .ok { s with data := put s.data ds { d with vals := vals } }
+
+/-! ## data frames -/
+
+/-- `Block.create_data_frame(name, type, col_names=…, col_dtypes=[float]*n, data=rows)`, followed by
+`frame.units = units` unless `units` is `none` (the frame then has no `units` attribute) — the one form
+generated: distinct column names, one unit (or None) per column, rows as long as there are columns.  `check_entity_name_and_type`, then the duplicate test on the
+(lazily created) `data_frames` group, then `Entity.create_new` + `create_dataset("data")`. -/
+def createFrame (s : DState) (owner : Path) (name type : String) (cols : List String)
+    (units : Option (List (Option String))) (rows : List (List Rat)) : Except Err DState :=
+  match resolve s.g rootLoc owner with
+  | none => .error .keyError
+  | some o =>
+    if kindOf s.g o.key != "block" then .error .attributeError
+    else
+      match checkNameType name type with
+      | .error e => .error e
+      | .ok () =>
+        if (match s.g.child? o.key "data_frames" with | some c => s.g.hasChild c name | none => false) then
+          .error .duplicateName
+        else if cols.isEmpty || !cols.Nodup || (match units with | some us => us.length != cols.length | none => false)
+            || rows.any (fun r => r.length != cols.length) then .error .valueError    -- never generated
+        else
+          match entityCreateNew s.g o.key "data_frames" name type "data_frame" with
+          | .error e => .error e
+          | .ok (g1, k) =>
+            let g2 := addDataset g1 k "data"
+            match g2.child? k "data" with
+            | some ds =>
+              .ok { s with g := g2, frames := put s.frames ds { cols := cols, units := units.map storeUnits, rows := rows } }
+            | none => .error .keyError
+
+/-- `frame.write_column(values, index=c)` through any path: one value per row, an existing column -/
+def writeColumn (s : DState) (p : Path) (c : Nat) (vals : List Rat) : Except Err DState :=
+  match frameAt s p with
+  | .error e => .error e
+  | .ok f =>
+    match s.g.child? f "data" with
+    | none => .error .keyError
+    | some ds =>
+      match look s.frames ds with
+      | none => .error .keyError
+      | some fd =>
+        if vals.length != fd.rows.length then .error .valueError
+        else if c ≥ fd.cols.length then .error .indexError
+        else
+          let fd' : FrameData := { fd with rows := (fd.rows.zip vals).map fun rv => rv.1.set c rv.2 }
+          .ok { s with frames := put s.frames ds fd' }
+
+/-- `frame.units = units` through any path (`DataFrame.units` setter): exactly one unit (or None) per column,
+else ValueError; None is stored as the empty text -/
+def setUnits (s : DState) (p : Path) (units : List (Option String)) : Except Err DState :=
+  match frameAt s p with
+  | .error e => .error e
+  | .ok f =>
+    match s.g.child? f "data" with
+    | none => .error .keyError
+    | some ds =>
+      match look s.frames ds with
+      | none => .error .keyError
+      | some fd =>
+        if units.length != fd.cols.length then .error .valueError
+        else .ok { s with frames := put s.frames ds { fd with units := some (storeUnits units) } }
+
+/-! ## dimension descriptors -/
+
+inductive DimSpec where
+  | set (labels : Option (List String))
+  | sampled
+  | range (ticks : Option (List Rat)) (label unit : Option String)
+  deriving Repr, Inhabited
+
+/-- `np.any(np.diff(ticks) < 0)` -/
+def descending : List Rat → Bool
+  | a :: b :: rest => decide (b < a) || descending (b :: rest)
+  | _ => false
+
+/-- `h5group.write_data(name, values)`: create the dataset if it is missing -/
+def ensureDataset (g : Graph) (d : Nat) (name : String) : Graph × Nat :=
+  match g.child? d name with
+  | some k => (g, k)
+  | none =>
+    let (g1, k) := g.newNode .dataset
+    (g1.addLink d name k, k)
+
+/-- `Dimension.__init__` + `_set_dimension_type`: the groups `dimensions` and `str(index)` come
+into being with the first attribute write -/
+def newDim (g : Graph) (a : Nat) (kind : String) : Graph × Nat :=
+  let idx := dimCount g a + 1
+  let (g1, dg) := g.ensureGroup a "dimensions"
+  let (g2, dn) := g1.ensureGroup dg (toString idx)
+  (g2.setAttr dn "~kind" (some kind), dn)
+
+/-- `append_set_dimension(labels)`, `append_sampled_dimension(1.0)`,
+`append_range_dimension(ticks, label, unit)` (ticks given in ascending order; with descending
+ticks the real call is refused *after* the descriptor was written — C12's open finding, never
+generated here: the model refuses it up front) -/
+def appendDim (s : DState) (p : Path) (spec : DimSpec) : Except Err DState :=
+  match arrayAt s p with
+  | .error e => .error e
+  | .ok a =>
+    match spec with
+    | .set labels =>
+      let (g1, dn) := newDim s.g a kDimSet
+      match labels with
+      | none => .ok { s with g := g1 }
+      | some ls =>
+        let (g2, k) := ensureDataset g1 dn "labels"
+        .ok { s with g := g2, labels := put s.labels k ls }
+    | .sampled =>
+      let (g1, _) := newDim s.g a kDimSample
+      .ok { s with g := g1 }
+    | .range ticks label unit =>
+      match ticks with
+      | some ts =>
+        if descending ts then .error .valueError
+        else if ts.isEmpty then .error .indexError    -- `DataType.get_dtype(data[0])`; never generated
+        else
+          let (g1, dn) := newDim s.g a kDimRange
+          let (g2, k) := ensureDataset g1 dn "ticks"
+          let g3 := g2.setAttr dn "label" label
+          let g4 := g3.setAttr dn "unit" unit
+          .ok { s with g := g4, ticks := put s.ticks k ts }
+      | none =>
+        let (g1, dn) := newDim s.g a kDimRange
+        let g3 := g1.setAttr dn "label" label
+        let g4 := g3.setAttr dn "unit" unit
+        .ok { s with g := g4 }
+
+/-- `Dimension._check_index`: exactly one `-1` and no other negative entry -/
+def checkIndex (iv : List Int) : Bool :=
+  (iv.filter (· == -1)).length == 1 && (iv.filter (· < 0)).length == 1
+
+/-- `DimensionLink.create_new(…, dataobj, dotype, index)` below the descriptor `dn` (`dotype` is
+"DataArray" or "DataFrame"; the index of a frame link is the one-element list `[column]`) -/
+def createLinkGroup (s : DState) (dn t : Nat) (tid dotype : String) (iv : List Int) : DState :=
+  let (g1, i) := s.g.freshId
+  let (g2, ln) := g1.ensureGroup dn "link"
+  let g3 := g2.setAttr ln "entity_id" (some i)
+  let g4 := g3.setAttr ln "data_object_type" (some dotype)
+  let g5 := createLinkIn g4 ln tid t
+  { s with g := g5, index := put s.index ln iv }
+
+/-- what `link_data_array` and `link_data_frame` do once the arguments are accepted: an existing link
+is removed, the new link group is made, and a RangeDimension then drops its explicit ticks -/
+def attachLink (s : DState) (dn target : Nat) (tid dotype : String) (iv : List Int) : DState :=
+  let g1 := if hasLink s.g dn then s.g.delLink dn "link" else s.g
+  let s1 := createLinkGroup { s with g := g1 } dn target tid dotype iv
+  if kindOf s.g dn == kDimRange && s1.g.hasChild dn "ticks" then { s1 with g := s1.g.delLink dn "ticks" }
+  else s1
+
+/-- `RangeDimension.link_data_array` / `Dimension.link_data_array` (a SetDimension uses the base
+method and keeps its stored labels; a SampledDimension refuses) -/
+def linkDataArray (s : DState) (p : Path) (i : Nat) (target : Nat) (iv : List Int) : Except Err DState :=
+  match dimAt s p i with
+  | .error e => .error e
+  | .ok dn =>
+    let kind := kindOf s.g dn
+    if kind == kDimSample then .error .runtimeError
+    else if kindOf s.g target != "data_array" then .error .attributeError    -- `data_array.data_extent`
+    else
+      match dataOf s target, s.g.entityId target with
+      | some d, some tid =>
+        if d.shape.length != iv.length then .error .valueError       -- IncompatibleDimensions
+        else if !checkIndex iv then .error .valueError
+        else .ok (attachLink s dn target tid "DataArray" iv)
+      | _, _ => .error .keyError
+
+/-- `RangeDimension.link_data_frame` / `Dimension.link_data_frame(frame, column)` -/
+def linkDataFrame (s : DState) (p : Path) (i : Nat) (target : Nat) (c : Int) : Except Err DState :=
+  match dimAt s p i with
+  | .error e => .error e
+  | .ok dn =>
+    let kind := kindOf s.g dn
+    if kind == kDimSample then .error .runtimeError
+    -- `if not 0 <= index < len(data_frame.columns)`: a negative index is refused before the frame is looked at
+    else if c < 0 then .error .indexError                                      -- OutOfBounds
+    else if kindOf s.g target != "data_frame" then .error .attributeError     -- `data_frame.columns`
+    else
+      match frameOf s target, s.g.entityId target with
+      | some fd, some tid =>
+        if c ≥ (fd.cols.length : Int) then .error .indexError                  -- OutOfBounds
+        else .ok (attachLink s dn target tid "DataFrame" [c])
+      | _, _ => .error .keyError
+
+/-- `Dimension.remove_link()` -/
+def removeLink (s : DState) (p : Path) (i : Nat) : Except Err DState :=
+  match dimAt s p i with
+  | .error e => .error e
+  | .ok dn =>
+    if !hasLink s.g dn then .error .runtimeError
+    else .ok { s with g := s.g.delLink dn "link" }
+
+/-- `RangeDimension.ticks = ticks` (non-empty list) -/
+def setTicks (s : DState) (p : Path) (i : Nat) (ts : List Rat) : Except Err DState :=
+  match dimAt s p i with
+  | .error e => .error e
+  | .ok dn =>
+    if kindOf s.g dn != kDimRange then .error .attributeError
+    else if descending ts then .error .valueError
+    else if ts.isEmpty then .error .indexError      -- never generated
+    else
+      let g1 := if hasLink s.g dn then s.g.delLink dn "link" else s.g
+      let (g2, k) := ensureDataset g1 dn "ticks"
+      .ok { s with g := g2, ticks := put s.ticks k ts }
+
+/-- `SetDimension.labels = labels` (a list of str) -/
+def setLabels (s : DState) (p : Path) (i : Nat) (ls : List String) : Except Err DState :=
+  match dimAt s p i with
+  | .error e => .error e
+  | .ok dn =>
+    if kindOf s.g dn != kDimSet then .error .attributeError
+    else if hasLink s.g dn then .error .runtimeError
+    else
+      let (g2, k) := ensureDataset s.g dn "labels"
+      .ok { s with g := g2, labels := put s.labels k ls }
+
+/-- `dim.unit = v` / `dim.label = v` (`v` a str or None).  A linked RangeDimension writes the
+attribute of the linked array (`DimensionLink.unit/label` setters: a raw `set_attr`) -/
+def setDimAttr (s : DState) (p : Path) (i : Nat) (attr : String) (v : Option String) : Except Err DState :=
+  match dimAt s p i with
+  | .error e => .error e
+  | .ok dn =>
+    let kind := kindOf s.g dn
+    if attr != "unit" && attr != "label" then .error .attributeError
+    else if attr == "unit" && kind == kDimSet then .error .attributeError
+    else if kind == kDimRange && hasLink s.g dn then
+      match linkTarget s.g dn with
+      | some t =>
+        if linkType s.g dn == "DataFrame" then
+          -- `DimensionLink.unit` setter rewrites one entry of the frame's `units`; the label cannot be set
+          if attr == "label" then .error .runtimeError
+          else
+            match (s.g.child? t "data").bind fun ds => (look s.frames ds).map fun fd => (ds, fd),
+                  linkColumn s dn with
+            | some (ds, fd), some c =>
+              match setFrameUnit fd c v with
+              | .ok fd' => .ok { s with frames := put s.frames ds fd' }
+              | .error e => .error e
+            | _, _ => .error .runtimeError
+        else .ok { s with g := s.g.setAttr t attr v }
+      | none => .error .runtimeError          -- dangling link (the target was deleted)
+    else .ok { s with g := s.g.setAttr dn attr v }
+
+/-! ## reads -/
+
+/-- `DimensionLink.values` -/
+def linkValues (s : DState) (dn : Nat) : Except Err (List Rat) :=
+  match s.g.child? dn "link" with
+  | none => .error .runtimeError
+  | some ln =>
+    match linkTarget s.g dn with
+    | none => .error .runtimeError            -- dangling
+    | some t =>
+      if linkType s.g dn == "DataFrame" then
+        match frameOf s t, linkColumn s dn with
+        | some fd, some c => column fd c
+        | _, _ => .error .runtimeError
+      else
+        match dataOf s t, look s.index ln with
+        | some d, some iv => selectVector d iv
+        | _, _ => .error .runtimeError
+
+/-- `RangeDimension.ticks` -/
+def readTicks (s : DState) (dn : Nat) : Except Err (List Rat) :=
+  if hasLink s.g dn then linkValues s dn
+  else
+    match s.g.child? dn "ticks" with
+    | some k => .ok ((look s.ticks k).getD [])
+    | none => .ok []
+
+/-- what `SetDimension.labels` yields: stored strings, or the numbers of the linked vector -/
+inductive Labels where
+  | strs (l : List String)
+  | nums (l : List Rat)
+  deriving DecidableEq, Repr, Inhabited
+
+def readLabels (s : DState) (dn : Nat) : Except Err Labels :=
+  if hasLink s.g dn then (linkValues s dn).map Labels.nums
+  else
+    match s.g.child? dn "labels" with
+    | some k => .ok (.strs ((look s.labels k).getD []))
+    | none => .ok (.strs [])
+
+/-- `dim.unit` / `dim.label` getters: a DataArray link reports the array's attribute, a DataFrame link
+the column's entry of `units` / the column's name -/
+def readDimAttr (s : DState) (dn : Nat) (attr : String) : Except Err (Option String) :=
+  if kindOf s.g dn == kDimRange && hasLink s.g dn then
+    match linkTarget s.g dn with
+    | some t =>
+      if linkType s.g dn == "DataFrame" then
+        match frameOf s t, linkColumn s dn with
+        | some fd, some c =>
+          if attr == "unit" then linkFrameUnit fd c
+          else if attr == "label" then (match fd.cols[c]? with | some n => .ok (some n) | none => .error .indexError)
+          else .ok none
+        | _, _ => .error .runtimeError
+      else .ok (s.g.getAttr t attr)
+    | none => .error .runtimeError
+  else .ok (s.g.getAttr dn attr)
+
+/-- `RangeDimension.is_alias` (current layout): no ticks, and a link to a DataArray -/
+def isAlias (s : DState) (dn : Nat) : Bool :=
+  if s.g.hasChild dn "ticks" then false
+  else hasLink s.g dn && linkType s.g dn == "DataArray"
+
+/-! ## operations and histories -/
+
+inductive DOp where
+  | store (op : Op)                                   -- any operation of the structural model
+  | createArray (owner : Path) (name type : String) (shape : List Nat) (vals : List Rat)
+  | writeData (p : Path) (vals : List Rat)
+  | appendDim (p : Path) (spec : DimSpec)
+  | linkDataArray (p : Path) (i : Nat) (target : Path) (iv : List Int)
+  | removeLink (p : Path) (i : Nat)
+  | setTicks (p : Path) (i : Nat) (ts : List Rat)
+  | setLabels (p : Path) (i : Nat) (ls : List String)
+  | setDimAttr (p : Path) (i : Nat) (attr : String) (v : Option String)
+  | createFrame (owner : Path) (name type : String) (cols : List String) (units : Option (List (Option String)))
+      (rows : List (List Rat))
+  | setUnits (p : Path) (units : List (Option String))
+  | writeColumn (p : Path) (c : Nat) (vals : List Rat)
+  | linkDataFrame (p : Path) (i : Nat) (target : Path) (c : Int)
+  deriving Repr, Inhabited
+
+def applyD (s : DState) : DOp → Option (Except Err DState)
+  | .store op => (apply s.g op).map fun r => r.map fun g' => { s with g := g' }
+  | .createArray o n t sh vs => some (createArray s o n t sh vs)
+  | .writeData p vs => some (writeData s p vs)
+  | .appendDim p spec => some (appendDim s p spec)
+  | .linkDataArray p i tp iv => (resolve s.g rootLoc tp).map fun l => linkDataArray s p i l.key iv
+  | .removeLink p i => some (removeLink s p i)
+  | .setTicks p i ts => some (setTicks s p i ts)
+  | .setLabels p i ls => some (setLabels s p i ls)
+  | .setDimAttr p i a v => some (setDimAttr s p i a v)
+  | .createFrame o n t cs us rs => some (createFrame s o n t cs us rs)
+  | .setUnits p us => some (setUnits s p us)
+  | .writeColumn p c vs => some (writeColumn s p c vs)
+  | .linkDataFrame p i tp c => (resolve s.g rootLoc tp).map fun l => linkDataFrame s p i l.key c
+
+/-- a refused call leaves the state as it is -/
+def stepD (s : DState) (op : DOp) : DState :=
+  match applyD s op with
+  | some (.ok s') => s'
+  | _ => s
+
+def runD (s : DState) (ops : List DOp) : DState := ops.foldl stepD s
+
+def initD : DState := {}
 
 end Nix.DimLink
